@@ -14,6 +14,7 @@ import (
 	"strconv"
 	"strings"
 	"sync"
+	"sync/atomic"
 	"testing"
 	"time"
 
@@ -145,6 +146,7 @@ func genCase(t *rapid.T) (Case, *env.Env) {
 		if uniform && sameGrid && segMS >= 1000 && segMS <= 1600 && segMS%4 == 0 && lowLatency && rapid.IntRange(0, 2).Draw(t, "chunked?") != 0 {
 			s.Chunked = true
 			s.Subs = ""
+			s.Slow = rapid.IntRange(0, 3).Draw(t, "chunked-slow") != 0
 			if rapid.IntRange(0, 2).Draw(t, "chunked-fault") == 0 {
 				s.Fault, s.Streams, s.Duration = "statuscode", false, 0
 			}
@@ -152,8 +154,13 @@ func genCase(t *rapid.T) (Case, *env.Env) {
 		c.Sessions = append(c.Sessions, s)
 	}
 	n := rapid.IntRange(3, 14).Draw(t, "nops")
+	for si, s := range c.Sessions {
+		if s.Chunked && !s.EarlyDelete { // a low-latency session gets a burst of steps for sure
+			c.Ops = append(c.Ops, Op{Kind: "burst", Session: si})
+		}
+	}
 	for i := 0; i < n; i++ {
-		c.Ops = append(c.Ops, Op{Kind: rapid.SampledFrom([]string{"step", "step", "step", "step", "info", "delete"}).Draw(t, "op"), Session: rapid.IntRange(0, ns-1).Draw(t, "s")})
+		c.Ops = append(c.Ops, Op{Kind: rapid.SampledFrom([]string{"step", "step", "step", "burst", "info", "delete"}).Draw(t, "op"), Session: rapid.IntRange(0, ns-1).Draw(t, "s")})
 	}
 	return c, e
 }
@@ -166,9 +173,12 @@ type put struct {
 	body   []byte
 	// aborted: the request body ended with an error (the sender gave the upload up, e.g. session deleted mid-segment)
 	aborted bool
+	// startSeq/endSeq: positions of the request's start and end in the receiver's event order
+	startSeq, endSeq int64
 }
 
 type recv struct {
+	seq   atomic.Int64
 	mu    sync.Mutex
 	puts  []put
 	fault string
@@ -179,13 +189,17 @@ type recv struct {
 }
 
 func (r *recv) ServeHTTP(w http.ResponseWriter, req *http.Request) {
+	startSeq := r.seq.Add(1)
+	if r.slow {
+		time.Sleep(r.delay / 2) // slow to start reading as well: the upload stays in flight
+	}
 	body, rerr := io.ReadAll(req.Body)
 	if r.slow {
 		time.Sleep(r.delay)
 	}
 	isInit := bytes.Contains(body[:min(len(body), 64)], []byte("ftyp"))
 	r.mu.Lock()
-	r.puts = append(r.puts, put{path: req.URL.Path, ctype: req.Header.Get("Content-Type"), ingest: req.Header.Get("DASH-IF-Ingest"), auth: req.Header.Get("Authorization"), body: body, aborted: rerr != nil})
+	r.puts = append(r.puts, put{path: req.URL.Path, ctype: req.Header.Get("Content-Type"), ingest: req.Header.Get("DASH-IF-Ingest"), auth: req.Header.Get("Authorization"), body: body, aborted: rerr != nil, startSeq: startSeq, endSeq: r.seq.Add(1)})
 	code := http.StatusOK
 	if isInit {
 		r.nInit++
@@ -267,8 +281,8 @@ func checkCase(c Case, e *env.Env) (*hx.Violation, info) {
 		reps     []repInfo
 		parts    []string
 		refParts []string // the same configuration without the fault-injection option
-		expected int // puts expected so far
-		sent     int // media segments per representation sent so far
+		expected int      // puts expected so far
+		sent     int      // media segments per representation sent so far
 		first    int64
 		total    int // segments to send if a duration is set (-1 unlimited)
 		done     bool
@@ -452,6 +466,11 @@ func checkCase(c Case, e *env.Env) (*hx.Violation, info) {
 			if !x.s.Streams && ps[0].path != "/dest/"+r.id+"/init"+r.ext {
 				return hx.V("upload-path", "init path %q", ps[0].path)
 			}
+			for k := 2; k < len(ps); k++ {
+				if ps[k].startSeq < ps[k-1].endSeq {
+					return hx.V("uploads-overlap", "session %s rep %s: the upload to %s started before the upload to %s had ended (one segment at a time per representation)", x.id, r.id, ps[k].path, ps[k-1].path)
+				}
+			}
 			lossy := x.s.Fault == "statuscode"
 			if !lossy && len(ps)-1 != x.sent {
 				return hx.V("segments-per-step", "session %s rep %s: %d media segments after %d effective steps", x.id, r.id, len(ps)-1, x.sent)
@@ -554,33 +573,41 @@ func checkCase(c Case, e *env.Env) (*hx.Violation, info) {
 			}
 			x.gone = true
 			inf.deleted = true
-		case "step":
-			done := make(chan ls.Resp, 1)
-			go func() { done <- e.Srv.Do("GET", "/api/cmaf-ingests/"+x.id+"/step", nil, nil) }()
-			var r ls.Resp
-			select {
-			case r = <-done:
-			case <-time.After(5 * time.Second):
-				return hx.V("step-blocks", "op %d: step of session %s (deleted=%v, finished=%v) did not return within 5 s", i, x.id, x.gone, x.done), inf
+		case "step", "burst":
+			// burst: steps issued back to back without waiting for the uploads in between - the session loop itself has to
+			// finish the uploads of one segment before it starts the next
+			nsteps := 1
+			if op.Kind == "burst" {
+				nsteps = 3
 			}
-			finished := x.total >= 0 && x.sent >= x.total
-			switch {
-			case x.gone || finished || x.refused:
-				// a stopped session sends nothing more; the step is refused
-				if r.Code == 200 {
-					// tolerated: the call may return 200 without effect if the loop is just ending
+			for si := 0; si < nsteps; si++ {
+				done := make(chan ls.Resp, 1)
+				go func() { done <- e.Srv.Do("GET", "/api/cmaf-ingests/"+x.id+"/step", nil, nil) }()
+				var r ls.Resp
+				select {
+				case r = <-done:
+				case <-time.After(5 * time.Second):
+					return hx.V("step-blocks", "op %d: step of session %s (deleted=%v, finished=%v) did not return within 5 s", i, x.id, x.gone, x.done), inf
 				}
-				x.done = x.done || finished
-			default:
-				if r.Code != 200 {
-					return hx.V("step-status", "op %d: step -> %v", i, r), inf
+				finished := x.total >= 0 && x.sent >= x.total
+				switch {
+				case x.gone || finished || x.refused:
+					// a stopped session sends nothing more; the step is refused
+					if r.Code == 200 {
+						// tolerated: the call may return 200 without effect if the loop is just ending
+					}
+					x.done = x.done || finished
+				default:
+					if r.Code != 200 {
+						return hx.V("step-status", "op %d: step -> %v", i, r), inf
+					}
+					x.sent++
+					x.expected += len(x.reps)
+					inf.steps++
 				}
-				x.sent++
-				x.expected += len(x.reps)
-				inf.steps++
-			}
-			if x.total >= 0 && x.sent >= x.total {
-				inf.finished = true
+				if x.total >= 0 && x.sent >= x.total {
+					inf.finished = true
+				}
 			}
 		}
 		if x.s.Fault == "statuscode" {
